@@ -234,11 +234,9 @@ impl Scenario {
                     g.descriptor(kind)
                 };
                 if let Ok(d) = wallet::parse_descriptor(&s.text) {
-                    if let Ok(dd) = wallet::make_definite(&d, index) {
-                        if wallet::is_well_typed(&dd) {
-                            spec = Some(s);
-                            break;
-                        }
+                    if wallet::make_definite(&d, index).is_ok() {
+                        spec = Some(s);
+                        break;
                     }
                 }
             }
